@@ -100,12 +100,12 @@ class ConfigMeta(type):
 
         :return: the updated contents
         """
+        for n in d:
+            if not isinstance(type(cls).__dict__.get(n, None), ConfigValue):
+                raise AttributeError(f"{cls} has no config value {n}")
+
         for n, v in d.items():
-            cv = type(cls).__dict__.get(n, None)
-            if isinstance(cv, ConfigValue):
-                setattr(cls, n, v)
-            else:
-                AttributeError(f"{cls} has no config value {n}")
+            setattr(cls, n, v)
 
         return cls.to_dict()
 
